@@ -100,6 +100,8 @@ def rand_string(r):
 
 def rand_key(r):
     k = r.randrange(6)
+    if k == 0 and r.randrange(8) == 0:
+        return "__blots_function"
     if k == 0:
         return r.choice(["", "0", "1", "-1", "1e5", "a", "a", "b", "key", "with space", "é", "é", "é", "if", "inputs", "x"])
     return rand_string(r)
@@ -137,7 +139,10 @@ def rand_value(r, depth):
     for _ in range(r.randrange(0, 6)):
         key = rand_key(r)
         if key == "__blots_function":
-            key = "__blots_function_"
+            # the key marks a function object only when its value is function source (or a built-in's name); with any other
+            # value the object is ordinary data and must come back whole
+            pairs.append((key, r.choice(["", "not a function", "hello world", "1 +", "=> x", Raw("5"), None, True, [Raw("1")]])))
+            continue
         pairs.append((key, rand_value(r, depth - 1)))
     if pairs and r.randrange(4) == 0:
         # duplicate key: last one wins in both implementations
